@@ -100,6 +100,7 @@ type PKCS7PaddingWriter struct {
 	swap      []byte        // 临时交换区
 	out       io.Writer     // 输出位置
 	blockSize int           // 分块大小
+	written   int64         // 已写入的总字节数，用于在 Final 中检查分组对齐
 }
 
 // NewPKCS7PaddingWriter PKCS#7 填充Writer 可以去除填充
@@ -116,6 +117,7 @@ func (p *PKCS7PaddingWriter) Write(buff []byte) (n int, err error) {
 	if err != nil {
 		return 0, err
 	}
+	p.written += int64(n)
 	if p.cache.Len() > p.blockSize {
 		// 把超过一个分组长度的部分读取出来，写入到实际的out中
 		size := p.cache.Len() - p.blockSize
@@ -147,6 +149,11 @@ func (p *PKCS7PaddingWriter) Final() error {
 	}
 	if length == 0 {
 		return nil
+	}
+	if p.written%int64(p.blockSize) != 0 {
+		// cache 只是最近 blockSize 字节的滑动窗口: 总长度不是分组长度的整数倍时，
+		// 最后一个分组不完整，不可能是合法的填充
+		return errors.New("非法的PKCS7填充")
 	}
 	unpadding := int(b[length-1])
 	if unpadding > p.blockSize || unpadding == 0 {
